@@ -167,7 +167,7 @@ def run(ctx):
         with os.fdopen(fd, "w") as f:
             json.dump(traces, f)
         r = tlc.run(MODULE, tlc.cfg_text(invariants=["Conforms"]), env={"TRACE_FILE": path}, workers=4, timeout=1800)
-        ctx.account(r, MODULE, "random-histories")
+        ctx.account(r, MODULE, "random-histories", expect_violation="any")
         if r.violated:
             m = re.search(r"mismatch = <<(\d+), (\d+), \"([^\"]*)\">>", r.trace_text)
             if m:
